@@ -81,6 +81,7 @@ template <class R> static void emit(const std::string& op, const std::string& cf
 }
 
 template <size_t... I> constexpr auto rev_axes_ct(std::index_sequence<I...>) { return nmtools_tuple<meta::ct<(int)(D - 1 - I)>...>{}; }
+template <size_t... I> constexpr auto long_reps_ct(std::index_sequence<I...>) { return nmtools_tuple<meta::ct<((I == 0 || I == D) ? 2 : 1)>...>{}; }
 template <size_t... I> constexpr auto bshape_ct(std::index_sequence<I...>) { return nmtools_tuple<meta::ct<2>, meta::ct<SH::ext[I]>...>{}; }
 
 template <class A> static void view_ops(const std::string& cfg, const A& a) {
@@ -107,6 +108,10 @@ template <class A> static void view_ops(const std::string& cfg, const A& a) {
     emit("atleast_nd", cfg + "/ct", sh, O()("nd", 3L).v, view::atleast_nd(a, 3_ct));
     emit("tile", cfg + "/rt_reps", sh, O()("reps", JV({2})).v, view::tile(a, std::vector<size_t>{2}));
     emit("tile", cfg + "/ct_reps", sh, O()("reps", JV({2})).v, view::tile(a, nmtools_tuple{2_ct}));
+    // more repetitions than axes: axes are prepended
+    { std::vector<long> lv; std::vector<size_t> ls; for (size_t i = 0; i <= D; i++) { long r = (i == 0 || i == D) ? 2 : 1; lv.push_back(r); ls.push_back((size_t)r); }
+      emit("tile", cfg + "/rt_long", sh, O()("reps", JV(lv)).v, view::tile(a, ls));
+      emit("tile", cfg + "/ct_long", sh, O()("reps", JV(lv)).v, view::tile(a, long_reps_ct(std::make_index_sequence<D + 1>{}))); }
     emit("repeat", cfg, sh, O()("repeats", JV({2}))("scalar", true)("axis", JV({0})).v, view::repeat(a, (size_t)2, 0));
     emit("roll", cfg, sh, O()("shift", JV({1}))("axis", L1(JV({-1})))("shift_int", true)("axis_int", true).v, view::roll(a, 1, -1));
     emit("take", cfg, sh, O()("indices", JV({0, 0}))("axis", (long)(D - 1)).v, view::take(a, std::vector<int>{0, 0}, (int)(D - 1)));
